@@ -133,6 +133,9 @@ def glob_match(pat, s):
         elif pat[i] == "?":
             rx += "[^/]"
             i += 1
+        elif pat[i] == "\\" and i + 1 < len(pat):
+            rx += re.escape(pat[i + 1])
+            i += 2
         else:
             rx += re.escape(pat[i])
             i += 1
